@@ -36,6 +36,12 @@ theorem old_error_exit_leaves_scripts :
     scriptsLeft { rootAfterZeroCheck := true, removeRootOnError := true, removeRootOnInterrupt := true, removeRootOnReturn := true,
                   sanityDirRemoved := true, candidateDirsInsideRoot := true, killOnError := false, killOnInterrupt := false } .cviseError = true := by decide
 
+/-- `kill_pid_queue()` can only end the processes whose pids were recorded: every helper program a pass starts from
+    `transform` (inside a candidate's worker) goes through `ProcessEventNotifier.run_process` — the list of launches that
+    bypass it, regenerated from `cvise/passes/*.py`, is empty.  (Before fix F15 it held `unifdef.UnIfDefPass.transform:
+    subprocess.run`: the `unifdef -s` listing of a cancelled candidate kept running after the pass run.) -/
+theorem shipped_helpers_tracked : Gen.untrackedHelperCalls = [] := by decide
+
 /-- the code as it is now has that shape (regenerated from `run_pass` on every run) -/
 theorem shipped_shape : GoodShape Gen.shape ∧ Gen.shape.sanityDirRemoved = true := by unfold GoodShape; decide
 
